@@ -11,7 +11,7 @@ from symx.ints import SInt, term
 from spec import ref
 
 PROP = "C20"
-ENGINE_EXC = (PathAbort, EngineLimit, EngineFault)
+ENGINE_EXC = (PathAbort, EngineLimit, EngineFault) + core.HARNESS_SIDE
 
 
 def free_group_digits(eng, name, ndig):
